@@ -222,6 +222,10 @@ def c05(obj, kind, case, cfg, rec, rng, ref_obj=None):
             for falsy in ('', 0):
                 if S(falsy) in known or falsy in order.values(): continue
                 judge('.unseen_falsy_category', probe_frame(raw, [falsy, base_row[raw]], object), f, expect_reject=(not has_default))
+            # an unseen category SPELLED like the default marker, in a feature without default group (a sample bucketized upstream): refused like any unseen category
+            mk = ref_obj.str_default
+            if mk is not None and not has_default and mk not in order.values() and S(mk) not in known:
+                judge('.unseen_category_spelled_like_the_default_marker', probe_frame(raw, [mk, base_row[raw]], object), f, expect_reject=True)
             if not order.contains(obj.str_nan):
                 judge('.missing_where_none_seen', probe_frame(raw, [np.nan, base_row[raw]], object), f, expect_reject=True)
     # the same finite numbers in an object-dtype column and in a nullable Float64 column
